@@ -288,7 +288,7 @@ def assignment_extremes_bounded_instance():
                     mode='bounded', bounded_n=120, frame=False)
 
 
-def integration_pa_bounded_instance():
+def integration_pa_bounded_instance(prop='C14'):
     """Inline PA of the integration models on several bins: in every bin the result is the posterior of some pairing that is not
     worse than the identity under the criterion (recomputed independently), and a bin processed alone gives the same result."""
     from pb_bss.distribution import mixture_model_utils as mmu
@@ -336,7 +336,7 @@ def integration_pa_bounded_instance():
         yield 'every-bin-uses-a-pairing-not-worse-than-the-identity', ok
         yield 'bin-alone-equals-bin-in-the-stack', bool(np.allclose(g, out['alone'], rtol=1e-9, atol=1e-12))
 
-    return Instance('C14', 'pb_bss.distribution.mixture_model_utils:log_pdf_to_affiliation_for_integration_models_with_inline_pa',
+    return Instance(prop, 'pb_bss.distribution.mixture_model_utils:log_pdf_to_affiliation_for_integration_models_with_inline_pa',
                     'bounded-several-bins', make, call, ensures, mode='bounded', bounded_n=80, frame=False)
 
 
